@@ -64,7 +64,7 @@ class Lattice(Part):
                         else:
                             dist = [rng.randrange(5) for _ in range(k)]
                         cases.append({"kind": "point", "family": family, "m": m, "pos": [list(a) for a in pos], "dist": dist,
-                                      "numpy": rng.random() < 0.3})
+                                      "numpy": rng.choice(["float", "float", "scalar", "ndarray"])})
         for _ in range(300 if ctx.quick else 4000):
             style = rng.random()
             q = [rng.randrange(5)] + ([0] * 29 if style < 0.3 else [rng.randrange(5) for _ in range(29)])
@@ -97,11 +97,17 @@ class Lattice(Part):
             if st == "exc":
                 ev["exc"] = prob
                 return [ev]
-            vec = [np.float64(v) for v in x] if case["numpy"] else list(x)
-            st, res = observe(prob.evaluate, Individual(vec))
+            kind = case["numpy"]
+            vec = [np.float64(v) for v in x] if kind == "scalar" else (np.array(x, dtype=float) if kind == "ndarray" else list(x))
+            ind = Individual(vec)
+            st, res = observe(prob.evaluate, ind)
             if st == "exc":
                 ev["exc"] = res
                 return [ev]
+            # the benchmark is a function of the point: evaluating must not change the design and must be repeatable
+            st2, res2 = observe(prob.evaluate, ind)
+            if st2 == "exc" or [float(v) for v in res2] != [float(v) for v in res] or [float(v) for v in ind.vector] != [float(v) for v in x]:
+                ev["exc"] = "evaluation changed the design vector or is not repeatable" 
             for v in res:
                 fr, ok = small_rational(v)
                 ev["exact"] = ev["exact"] and ok
